@@ -70,6 +70,9 @@ def check_params_reach(run, A, module_prefixes, rule='R-USE'):
     for fn in A.prog.all_funcs():
         if not any(fn.mod.name == p.rstrip('.') or fn.mod.name.startswith(p) for p in module_prefixes):
             continue
+        from .terms import known_funcs
+        if fn.qual not in known_funcs():
+            continue        # a helper introduced later: it is inlined at its call sites and judged there
         g = A.graphs.get(fn)
         rets = [x for x in _leaves(g.ret)]
         if rets and all(getattr(x, 'op', None) == 'raise' for x in rets) and not [e for e in g.events if e.kind in ('store', 'inplace', 'setattr')]:
